@@ -5,6 +5,7 @@ usage: save_wave.py <table.tsv> <status.tsv> <first-number> <wave-label>
  status.tsv: <prop> <k> <TAB-separated: result text, signatures>
 Only changes whose log /tmp/seed/logs/<prop>-<k>-verify.txt ends in CONFIRMED are stored."""
 import json, os, re, shutil, sys
+ROOT = os.environ.get("WAVE_ROOT", "/tmp/seed")
 table, status, first, label = sys.argv[1], sys.argv[2], int(sys.argv[3]), sys.argv[4]
 st = {}
 for l in open(status):
@@ -16,13 +17,13 @@ for l in open(status):
     st[(p, k)] = (parts[0], parts[1] if len(parts) > 1 else "")
 for l in open(table):
     p, k, crate, flt = l.split()
-    log = "/tmp/seed/logs/%s-%s-verify.txt" % (p, k)
+    log = "%s/logs/%s-%s-verify.txt" % (ROOT, p, k)
     if not os.path.exists(log):
         print("no log", p, k); continue
     out = open(log).read()
     if "CONFIRMED %s %s" % (p, k) not in out or "NOT-CONFIRMED" in out:
         print("NOT CONFIRMED", p, k); continue
-    wt = "/tmp/seed/%s" % p
+    wt = "%s/%s" % (ROOT, p)
     sfx = "" if k == "1" else k
     n = first + int(k) - 1
     d = "/verif/seeded/%s-%d" % (p, n)
